@@ -5,6 +5,6 @@ func init() {
 		ID:          "C01",
 		Explanation: "Structural necessary conditions of 'compiled programs behave like the reference toolchain' are decided: the compiler/prelude/natives boundary is closed (names, arities, properties, unshadowable host names), dispatches are total, panics are contained, templates lex as JavaScript, program assembly order. NOT decided: that any emitted statement means what the Go construct means.",
 		Assumptions: []string{"go/types and go/ast describe the compiler's own code faithfully", "acorn parses the prelude as Node would", "templates are the only way package compiler produces JavaScript text"},
-		Rules:       []RuleFunc{ruleL1, ruleL2, ruleL3, ruleL4, ruleL8, ruleL9},
+		Rules:       []RuleFunc{ruleL1, ruleL2, ruleL3, ruleL4, ruleL8, ruleL9, ruleTotal("C01.exh", 30, ""), ruleBuiltins, ruleRewrites},
 	})
 }
